@@ -17,20 +17,27 @@ SPELL = {
     'begin': 'begin', 'end': 'end', 'if': 'if', 'then': 'then', 'else': 'else', 'end if': 'end if', 'while': 'while',
     'loop': 'loop', 'do': 'do', 'for': 'for', 'in': 'in', 'end loop': 'end loop', 'end while': 'end while',
     'case': 'case', 'when': 'when', 'end case': 'end case', 'hdr-for': 'for', 'returns': 'returns', 'go': 'GO',
+    'mid-do': 'do', 'mid-for': 'for', 'mid-if': 'if', 'table': 'table', 'view': 'view',
 }
 
 
 PENDING = ('DECL', 'DECLITEM', 'IFC', 'IFC2', 'WHC', 'WHC2', 'FORV', 'FORIN', 'FORR', 'FORL', 'CSE0', 'CSW', 'CSV0', 'CST0')
 
 
-NAME_SPELLINGS = ['r.end', 't.begin', 'x.case', 'y.loop', 'z.if', '"end"', 'q.declare', 'n.for', '`end`', 'w.while']
+INNER_WS = ['\n', '\t', '  ', '\r\n', ' \n ']
+# ('x.case' is not in the list: CASE, IN, VALUES, USING, FROM, AS are typed by a dedicated rule that precedes the
+# name-after-period rule, a documented quirk for reserved words used as column names)
+NAME_SPELLINGS = ['r.end', 't.begin', 'x.loop2', 'y.loop', 'z.if', '"end"', 'q.declare', 'n.for', '`end`', 'w.while']
 
 
 class Ref:
-    def __init__(self, max_depth, plain_only=False, semicolon_in_parens=False):
+    def __init__(self, max_depth, plain_only=False, semicolon_in_parens=False, ddl=True,
+                 mid_keywords=('mid-do', 'mid-for', 'mid-if')):
         self.D = max_depth
         self.plain_only = plain_only
         self.semi_in_parens = semicolon_in_parens
+        self.ddl = ddl
+        self.mid_keywords = tuple(mid_keywords)
 
     def initial(self):
         return ('TOP', (), 0, 0)
@@ -62,6 +69,18 @@ class Ref:
         elif mode == 'HDR0':
             for w in ('function', 'procedure', 'trigger'):
                 add((w, ('HDR', (), 0, 0), False, 0))
+            if self.ddl:
+                add(('table', ('DDL', (), 0, 0), False, 0))
+                add(('view', ('DDL', (), 0, 0), False, 0))
+        elif mode == 'DDL':
+            # a non-procedural CREATE TABLE / VIEW: one plain statement; block keywords may occur in it
+            # (IF NOT EXISTS, substring(a FROM 1 FOR 2), CASE expressions) without opening anything
+            self._expr_events(out, 'DDL', stack, px, cx)
+            add(('mid-if', ('DDL', stack, px, cx), False, 0))
+            add(('mid-for', ('DDL', stack, px, cx), False, 0))
+            add(('as', ('DDL', stack, px, cx), False, 0))
+            if px == 0 and cx == 0:
+                add((';', ('TOP', (), 0, 0), True, 0))
         elif mode == 'HDR':
             add(('name', ('HDR', (), px, 0), False, 0))
             if px == 0:
@@ -116,6 +135,15 @@ class Ref:
                 add(('end case', after, False, -1))
         elif mode == 'SIMPLE':
             self._expr_events(out, 'SIMPLE', stack, px, cx)
+            if self.mid_keywords and cx == 0:
+                # keywords that open blocks at the start of a statement occur inside simple statements too
+                # (ON CONFLICT DO NOTHING, SELECT .. FOR UPDATE, DROP TABLE IF EXISTS)
+                for ev in self.mid_keywords:
+                    add((ev, ('MIDK', stack, px, cx), False, 0))
+        elif mode == 'MIDK':
+            # ... IF EXISTS, FOR UPDATE / FOR SELECT, DO NOTHING: the keyword is followed by an ordinary word
+            add(('name', ('SIMPLE', stack, px, cx), False, 0))
+            add(('select', ('SIMPLE', stack, px, cx), False, 0))
             if px == 0 and cx == 0:
                 add((';', ('STMT0', stack, 0, 0), False, 0))
         elif mode == 'IFC':
@@ -336,6 +364,10 @@ def render(events, style=0):
     parts = []
     for i, ev in enumerate(events):
         w = SPELL[ev]
+        if style == 3 and ' ' in w:
+            w = w.replace(' ', '\n')          # multi-word keywords written across a line break, no blank
+        if style == 1 and ' ' in w:
+            w = w.replace(' ', '\t')
         if style == 2 and ev == 'name':
             # names that end in (or are, quoted) block keywords must still be names
             w = NAME_SPELLINGS[i % len(NAME_SPELLINGS)]
@@ -348,6 +380,24 @@ def render(events, style=0):
         else:
             parts.append(' ' if style == 0 else ('\n' if ev in ('begin', 'then', 'loop', 'else', 'do') else ' '))
     return ''.join(parts)
+
+
+def render_pieces(events_with_splits, style=0):
+    """(script text, expected pieces): the script is rendered once, the pieces are its slices at the
+    semicolons where the reference splits (so per-index spellings agree between text and pieces)"""
+    events = [e for e, _ in events_with_splits]
+    text = ''
+    pieces, start = [], 0
+    for i, (ev, splits) in enumerate(events_with_splits):
+        text = render(events[:i + 1], style)
+        if ev in (';', 'go') and splits:
+            # the statement ends right after the separator token itself; whatever layout follows on the
+            # same line (a same-line comment) stays with it
+            pieces.append(text[start:])
+            start = len(text)
+    if text[start:].strip():
+        pieces.append(text[start:])
+    return text, [p.strip() for p in pieces if p.strip()]
 
 
 def expected_pieces(events_with_splits, style=0):
